@@ -417,6 +417,8 @@ pub fn generate<W: Write>(c: &mut Cases<W>, rng: &mut Rng, thorough: bool, which
         let mut cfg = gen_cfg(rng, deep, i % 5 == 4);
         if which == "C10" {
             cfg.levels = 0;
+            // every codec in turn: the V1 trailer stores the codec id too
+            cfg.codec = CODECS[i % 6];
         }
         if cfg.levels > 8 {
             cfg.levels = (cfg.levels % 5) + 1;
